@@ -35,6 +35,13 @@ CLAIMS["C03"] = dict(text="bounded symbolic model checking: (a) the merge rule o
                     "sequence up to the length bound over an alphabet with daggers, channels, preparations, two-mode gates and gates depending on a "
                     "measured parameter leaves the same final state (shared symbolic measurement outcomes) and does not touch the original",
                     design_ref="5/C03")
+CLAIMS["C11"] = dict(text="bounded symbolic model checking: for source circuits over the accepted operations (D, S, R, BS, MZ, sMZ, S2, Loss) with "
+                    "symbolic parameters, both dagger flags, both target orders, on contiguous and non-contiguous index sets of registers "
+                    "up to 10 (17 thorough) modes, the output of the real gaussian_unitary / passive compilers, interpreted on the registers "
+                    "the output names in that order, has the same net (S,d) / T as the ordered product of the documented source maps; "
+                    "for gaussian_merge every hybrid circuit up to the length bound is compared with non-Gaussian operations interpreted as "
+                    "opaque symbolic affine-symplectic markers, so equality for all marker values is exactly 'every non-Gaussian operation "
+                    "kept its place'; any exception other than CircuitError is a violation", design_ref="5/C11")
 NA_DEFAULT = "check not built yet in this session (plan: DESIGN.md section 5)"
 NA = {}
 
